@@ -77,6 +77,7 @@ type ChildResult struct {
 	Uid       int          `json:"uid"`
 	Error     string       `json:"error,omitempty"`
 	RootFatal string       `json:"root_fatal,omitempty"`
+	Names     []string     `json:"names"` // the names RunT gave the subtests, in the order of Params.Files
 }
 
 // ---------------------------------------------------------------- recording T
@@ -381,7 +382,7 @@ func runBatchChild(job *Job, deadline time.Time) *ChildResult {
 		byName[s.Name] = s
 		dir := filepath.Join(job.Dir, "scripts", strconv.Itoa(i))
 		os.MkdirAll(dir, 0o777)
-		f := filepath.Join(dir, s.Name+".txt")
+		f := filepath.Join(dir, s.fileBase()+".txt")
 		if err := os.WriteFile(f, s.archiveIn(job.Dir, job.Gated), 0o666); err != nil {
 			res.Error = err.Error()
 			return res
@@ -466,6 +467,13 @@ func runBatchChild(job *Job, deadline time.Time) *ChildResult {
 			data, err := hex.DecodeString(strings.TrimSuffix(args[1], "x"))
 			ts.Check(err)
 			ts.Check(os.WriteFile(ts.MkAbs(args[0]), data, 0o666))
+		},
+		"mkdirro": func(ts *testscript.TestScript, neg bool, args []string) {
+			if len(args) != 1 {
+				ts.Fatalf("usage: mkdirro dir")
+			}
+			ts.Check(os.MkdirAll(ts.MkAbs(args[0]), 0o777))
+			ts.Check(os.Chmod(ts.MkAbs(args[0]), 0o555))
 		},
 		"regdefer": func(ts *testscript.TestScript, neg bool, args []string) {
 			id, _ := strconv.Atoi(args[0])
@@ -558,6 +566,9 @@ func runBatchChild(job *Job, deadline time.Time) *ChildResult {
 	}
 	res.RunTNs = time.Since(t0).Nanoseconds()
 	res.RootFatal = root.fatal
+	for _, s := range root.subs {
+		res.Names = append(res.Names, s.name)
+	}
 	for _, s := range root.subs {
 		col.mu.Lock()
 		o := col.get(s.name)
